@@ -1,9 +1,9 @@
-#!/bin/sh
-# try_seed.sh <patch> <check-id>... : apply a seeded change to /repo, run the quick checks, undo it
+#!/bin/bash
+# try_seed.sh <patch> <check-id>... : apply a seeded change to /repo, run the quick checks, undo it (always)
 P="$1"; shift
 cd /repo || exit 2
+trap 'git -C /repo checkout -- . ; git -C /repo status --short' EXIT
 git apply "$P" || { echo "patch does not apply"; exit 2; }
 for id in "$@"; do
-  (cd /verif && timeout -k 5 1500 bin/check "$id" quick 2>&1 | grep -E "^VIOLATION|^KNOWN|INFRA|seed=" | cut -c1-260)
+  (cd /verif && timeout -k 5 900 setsid bin/check "$id" quick > /tmp/seed_try.log 2>&1 < /dev/null; grep -E "^VIOLATION|^KNOWN|INFRA|seed=" /tmp/seed_try.log | cut -c1-260)
 done
-git -C /repo checkout -- . && git -C /repo status --short
